@@ -153,6 +153,110 @@ Section RootOk.
     end.
 End RootOk.
 
+(* ------------------------------------------------------------------ violations at any depth
+   [viol re D s v]: instance [v] violates a constraint of the enforced kinds stated by schema [s]
+   at SOME position the walk below reaches: the root ([V_here]), through "$ref" ([V_ref]), a
+   declared property ([V_prop]), an array element ([V_item]), a tuple position ([V_tuple]), a value
+   admitted by a typed additionalProperties and not a declared property ([V_addl]), the non-null
+   branch of a nullable oneOf/anyOf ([V_opt]), or the tag of a tagged oneOf ([V_tag]).  This is what
+   the eight single-constraint mutators of property C05 produce.
+   Side conditions (each documented in notes/C05.md):
+   * [alt_free] at the violating node: not one of serde's two alternative wire forms (an array where
+     the schema admits objects - struct from a sequence; an object where the schema admits strings -
+     finding C05-F2);
+   * below the root the walk does not pass through or end at the value `null` ([x <> JNull]): an
+     explicit null at a member that may be absent is finding C05-F3. *)
+Definition plain (s : schema) : bool :=
+  match s with
+  | SBool _ => false
+  | SObj _ _ _ _ _ _ _ _ _ _ _ _ _ _ _ _ _ allo anyo oneo _ ref _ _ => is_none ref && negb (is_union allo anyo oneo)
+  end.
+
+Definition alt_free (s : schema) (v : json) : bool :=
+  match v with
+  | JArr _ => negb (valid_type serde_ints (sch_types s) (JObj []))
+  | JObj _ => negb (valid_type serde_ints (sch_types s) (JStr []))
+  | _ => true
+  end.
+
+Definition typed_schema (s : schema) : bool := match s with SBool _ => false | SObj _ _ _ _ _ _ _ _ _ _ _ _ _ _ _ _ _ _ _ _ _ _ _ _ => true end.
+
+(* union of a nullable: oneOf / anyOf (no other union keyword, no "$ref") *)
+Definition union_branches (s : schema) : option (list schema) :=
+  match s with
+  | SObj _ _ _ _ _ _ _ _ _ _ _ _ _ _ _ _ _ None (Some bs) None _ None _ _
+  | SObj _ _ _ _ _ _ _ _ _ _ _ _ _ _ _ _ _ None None (Some bs) _ None _ _ => Some bs
+  | _ => None
+  end.
+
+(* the tag constant a branch of a tagged oneOf pins property [tg] to *)
+Definition branch_tag_of (tg : ustring) (b : schema) : option ustring :=
+  match assoc tg (sch_props b) with
+  | Some ts => match sch_enum ts, sch_const ts with
+               | Some [JStr x], None => Some x
+               | None, Some (JStr x) => Some x
+               | _, _ => None
+               end
+  | None => None
+  end.
+
+(* [v] carries, under [tg], none of the branches' tag constants *)
+Definition tag_bad (tg : ustring) (bs : list schema) (v : json) : bool :=
+  match v with
+  | JObj kvs =>
+      match assoc tg kvs with
+      | Some (JStr x) => negb (existsb (fun b => match branch_tag_of tg b with
+                                                 | Some y => ustr_eqb x y
+                                                 | None => false
+                                                 end) bs)
+      | _ => true
+      end
+  | _ => true
+  end.
+
+(* the property that every branch of a oneOf pins to one string constant, if there is exactly one *)
+Definition common_tag (bs : list schema) : option ustring :=
+  match bs with
+  | [] => None
+  | b0 :: _ =>
+      match filter (fun tg => forallb (fun b => is_some (branch_tag_of tg b)) bs) (map fst (sch_props b0)) with
+      | [tg] => Some tg
+      | _ => None
+      end
+  end.
+
+Definition no_null (bs : list schema) : bool := negb (existsb null_only bs).
+Definition ctag_ok (bs : list schema) (tg : ustring) : bool :=
+  match common_tag bs with Some tg' => ustr_eqb tg' tg | None => true end.
+
+Section Viol.
+  Variable re_match : ustring -> ustring -> bool.
+  Variable D : defs.
+
+  Inductive viol : schema -> json -> Prop :=
+  | V_here s v : root_ok re_match D s v = false -> alt_free s v = true -> viol s v
+  | V_ref s r s' v : sch_ref s = Some r -> resolve_ref D r = Some s' -> v <> JNull -> viol s' v -> viol s v
+  | V_prop s k s' kvs x :
+      plain s = true -> In (k, s') (sch_props s) -> assoc k kvs = Some x -> x <> JNull ->
+      viol s' x -> viol s (JObj kvs)
+  | V_item s s' l x :
+      plain s = true -> sch_items s = (ItemsSingle, [s']) -> In x l -> x <> JNull ->
+      viol s' x -> viol s (JArr l)
+  | V_tuple s ss l i s' x :
+      plain s = true -> sch_items s = (ItemsTuple, ss) -> nth_error ss i = Some s' -> nth_error l i = Some x ->
+      x <> JNull -> viol s' x -> viol s (JArr l)
+  | V_addl s sa kvs k x :
+      plain s = true -> sch_additional_props s = Some sa -> typed_schema sa = true ->
+      In (k, x) kvs -> has_key k (sch_props s) = false -> x <> JNull ->
+      viol sa x -> viol s (JObj kvs)
+  | V_opt s bs b v :
+      union_branches s = Some bs -> In b bs -> null_only b = false -> existsb null_only bs = true ->
+      v <> JNull -> viol b v -> viol s v
+  | V_tag s bs tg v :
+      union_branches s = Some bs -> common_tag bs = Some tg ->
+      (exists kvs, v = JObj kvs) -> tag_bad tg bs v = true -> viol s v.
+End Viol.
+
 (* ------------------------------------------------------------------ type side *)
 (* the two alternative wire forms serde accepts besides the one the schema
    describes (DESIGN Appendix A): a struct from a JSON ARRAY (serde_derive's
@@ -269,12 +373,19 @@ Section Exact.
            | Some (SBool _) | None => true
            | Some sa => match flat_props ps with
                         | [fp] => match get_det T (p_ty fp) with
-                                  | Some (DMap _ vt) => ex sa vt
+                                  | Some (DMap _ vt) =>
+                                      ex sa vt && forallb (fun w => has_key w props) (wire_names ps)
                                   | _ => false
                                   end
                         | _ => false
                         end
            end.
+
+      Definition no_items : bool := match ik with ItemsAbsent => true | _ => false end.
+      (* the schema describes no child position at all *)
+      Definition no_children : bool :=
+        match props with [] => true | _ => false end && no_items
+        && match ap with Some (SBool _) | None => true | Some _ => false end.
 
       (* a node without union / "$ref", against a non-wrapper, non-Option type *)
       Definition leaf_x (ed dd : bool) (d : details) : bool :=
@@ -308,9 +419,9 @@ Section Exact.
             common ed dd && ty_rep [JObj []] && no_obj_claims && negb (is_closed ap)
             && match props with [] => true | _ => false end
             && match ap with Some (SBool _) | None => true | Some sa => ex sa vt end
-        | DStruct _ _ ps deny => common ed dd && struct_x ps deny
+        | DStruct _ _ ps deny => common ed dd && no_items && struct_x ps deny
         | DJsonValue =>
-            common ed dd && is_none ty && is_strv_none sv && no_obj_claims && negb (is_closed ap)
+            common ed dd && no_children && is_none ty && is_strv_none sv && no_obj_claims && negb (is_closed ap)
             && is_none (arity_of mni mxi)
         | _ => false
         end.
@@ -354,15 +465,7 @@ Section Exact.
           end.
 
       (* tag discipline of a tagged oneOf (checked, soundness not proved) *)
-      Definition branch_tag (tg : ustring) (b : schema) : option ustring :=
-        match assoc tg (sch_props b) with
-        | Some ts => match sch_enum ts, sch_const ts with
-                     | Some [JStr x], None => Some x
-                     | None, Some (JStr x) => Some x
-                     | _, _ => None
-                     end
-        | None => None
-        end.
+      Definition branch_tag : ustring -> schema -> option ustring := branch_tag_of.
 
       Definition raws (vs : list variant) : list ustring := map v_raw vs.
 
@@ -406,13 +509,14 @@ Section Exact.
                       match d with
                       | DOption t' =>
                           (* nullable union: the non-null branches against the inner type *)
-                          forallb (fun b => null_only b || ex b t') bs
-                      | DEnum _ _ (TagInternal tg) vs _ _ => tags_x tg bs vs
-                      | DEnum _ _ (TagAdjacent tg _) vs _ _ => tags_x tg bs vs
+                          is_none (common_tag bs) && forallb (fun b => null_only b || ex b t') bs
+                      | DEnum _ _ (TagInternal tg) vs _ _ => no_null bs && ctag_ok bs tg && tags_x tg bs vs
+                      | DEnum _ _ (TagAdjacent tg _) vs _ _ => no_null bs && ctag_ok bs tg && tags_x tg bs vs
                       | DEnum _ _ TagExternal vs _ _ =>
-                          forallb (fun b => null_only b || ext_branch_x vs b) bs
-                      | DEnum _ _ TagUntagged _ _ _ => true      (* no tag to enforce *)
-                      | _ => true                                 (* merged allOf etc.: nothing claimed *)
+                          no_null bs && is_none (common_tag bs) && forallb (ext_branch_x vs) bs
+                      (* untagged enums, merged types: nothing is claimed, so the union must neither be
+                         a nullable (that is an Option) nor carry a common tag (that is a tagged enum) *)
+                      | _ => no_null bs && is_none (common_tag bs)
                       end
                   end
               end
@@ -452,13 +556,18 @@ Section Exact.
 
   (* the alternative wire forms, at the type [exact] resolves to *)
   Fixpoint std_wire_at (ft : nat) (t : id) (v : json) : bool :=
-    match get_det T t with
-    | None => true
-    | Some d =>
-        match d with
-        | DBox t' | DNewtype _ _ t' _ | DOption t' =>
-            match ft with S ft' => std_wire_at ft' t' v | O => true end
-        | _ => negb (seq_for_struct d v) && negb (obj_for_unit_variant d v)
+    match ft with
+    | O => true
+    | S ft' =>
+        match get_det T t with
+        | None => true
+        | Some d =>
+            match d with
+            | DBox t' | DOption t' => std_wire_at ft' t' v
+            | DNewtype _ _ t' c =>
+                match c with CString _ _ _ => true | _ => std_wire_at ft' t' v end
+            | _ => negb (seq_for_struct d v) && negb (obj_for_unit_variant d v)
+            end
         end
     end.
 End Exact.
